@@ -4,8 +4,29 @@ import collections
 import copy
 import json
 import os
+import multiprocessing as mp
 import random
+from concurrent.futures import ProcessPoolExecutor
 from harness import common, hfront, genfront
+
+ORACLES = {}     # name -> function(text, world, eff_text, eff_tree, version, workdir) -> (violations, stats)
+
+
+def eval_effective(task):
+    """worker: one document through the real front end (and the registered oracle)"""
+    version, text, dirs, workdir, oracle = task
+    w = hfront.World(dirs, False, True, version)
+    w.materialise(workdir)
+    tree, _ = hfront.load_yaml(text)
+    real = hfront.real_effective(text, w)
+    res = {'real': real if real[0] != 'ok' else ('ok', None), 'loaded': w.loaded, 'tree': hfront.yj(tree)}
+    if real[0] == 'ok':
+        eff_tree = hfront.load_yaml(real[1])[0]
+        res['eff_text'] = real[1]
+        res['eff_tree'] = hfront.yj(eff_tree)
+        if oracle:
+            res['violations'], res['ostats'] = ORACLES[oracle](text, w, real[1], eff_tree, version, workdir)
+    return res
 
 
 def _members_ok(t):
@@ -47,6 +68,7 @@ class Runner:
         self.work = common.scratch()
         self.stats = {}
         self.disagreements = []     # dicts: kind, input, real, model, in_domain
+        self.crashes = []
         self.nworld = 0
 
     def _record(self, label, outcomes, n):
@@ -133,48 +155,75 @@ class Runner:
         self._cmp('H-include', cases, lines, dom=lambda i: _members_ok(i['node']) and _members_ok(i['dirs']))
 
     # ---- whole documents ---------------------------------------------------------------
-    def effective3(self, rnd, n, on_accept=None):
-        """valid barectf 3 configurations re-expressed with aliases/inheritance/inclusions: real
-        effective document (re-loaded) vs Lean `expand3`"""
-        cases, lines = [], []
-        agg = collections.Counter()
+    def effective_docs(self, label, version, docs, oracle=None):
+        """docs: [(yaml text, dirs)].  The real effective document (re-loaded) vs Lean `expand3`/`expand2`;
+        `oracle` (a registered name) is evaluated on every accepted document, in worker processes."""
+        tasks = []
+        for text, dirs in docs:
+            self.nworld += 1
+            tasks.append((version, text, dirs, os.path.join(self.work, f'w{self.nworld}'), oracle))
+        with ProcessPoolExecutor(max_workers=min(common.NPROC, 12), mp_context=mp.get_context('fork')) as ex:
+            results = list(ex.map(eval_effective, tasks, chunksize=1))
+        pk2 = hfront.pkg_dir_files(2) if version == 2 else None
+        pk3 = hfront.pkg_dir_files(3)
+        lines, oc = [], collections.Counter()
+        for res in results:
+            if version == 3:
+                lines.append({'op': 'expand3', 'doc': res['tree'], 'dirs': res['loaded'] + [pk3], 'ignore': False})
+            else:
+                lines.append({'op': 'expand2', 'doc': res['tree'], 'dirs2': res['loaded'] + [pk2],
+                              'dirs3': res['loaded'] + [pk3]})
+        out = common.drv_run(lines)
+        ostats = collections.Counter()
+        for (text, dirs), res, line in zip(docs, results, out):
+            m = hfront.parse_model(line)
+            r = res['real']
+            inp = {'doc_yaml': text, 'dirs': dirs}
+            if r[0] == 'ok':
+                r = ('ok', hfront.jy(res['eff_tree']))
+                oc['accepted'] += 1
+                if not agree(r, m):
+                    oc['disagreements'] += 1
+                    self.disagreements.append({'kind': label, 'input': inp, 'real': show(r), 'model': show(m),
+                                               'in_domain': True,
+                                               'first_diff': hfront.first_diff(r[1], m[1]) if m[0] == 'ok' else None})
+                for k, v in (res.get('ostats') or {}).items():
+                    ostats[k] += v
+                for v in res.get('violations') or []:
+                    self.c.violation(v)
+            else:
+                oc[f'rejected_{r[1]}'] += 1
+                if r[0] == 'crash':
+                    oc['crash'] += 1
+                    self.crashes.append({'kind': label, 'input': inp, 'real': list(r)})
+        self._record(label, oc, len(docs))
+        return dict(ostats), results
+
+    def effective3(self, rnd, n, oracle=None):
+        docs, agg = [], collections.Counter()
         for _ in range(n):
             cfg, doc, dirs, st = genfront.gen_effective_case(rnd)
             for k, v in st.items():
                 agg['gen_' + k] += v
-            w = hfront.World(dirs, False, True, 3)
-            self.nworld += 1
-            w.materialise(os.path.join(self.work, f'w{self.nworld}'))
-            text = hfront.dump_yaml(doc, v3root=True)
-            tree, _ = hfront.load_yaml(text)
-            r = hfront.real_effective(text, w)
-            if r[0] == 'ok':
-                eff_text = r[1]
-                r = ('ok', hfront.load_yaml(eff_text)[0])
-                if on_accept:
-                    on_accept(text, w, eff_text, r[1])
-            d = w.to_json()
-            d.update({'op': 'expand3', 'doc': hfront.yj(tree)})
-            lines.append(d)
-            cases.append(({'doc_yaml': text, 'dirs': dirs}, r))
-        out = common.drv_run(lines)
-        oc = collections.Counter()
-        for (inp, r), line in zip(cases, out):
-            m = hfront.parse_model(line)
-            if r[0] == 'ok':
-                oc['accepted'] += 1
-                if not agree(r, m):
-                    oc['disagreements'] += 1
-                    self.disagreements.append({'kind': 'H-effective3', 'input': inp, 'real': show(r), 'model': show(m),
-                                               'in_domain': True,
-                                               'first_diff': hfront.first_diff(r[1], m[1]) if m[0] == 'ok' else None})
-            else:
-                # rejected by a validation stage the expansion model does not include
-                oc[f'rejected_{r[1]}'] += 1
-                if r[0] == 'crash':
-                    oc['crash'] += 1
-        oc.update(agg)
-        self._record('H-effective3', oc, len(cases))
+            docs.append((hfront.dump_yaml(doc, v3root=True), dirs))
+        ostats, _ = self.effective_docs('H-effective3', 3, docs, oracle)
+        self._record('H-effective3', agg, 0)
+        return ostats
+
+    def effective2(self, rnd, n, oracle=None):
+        from harness import genv2
+        docs, agg = [], collections.Counter()
+        for _ in range(n):
+            a = genv2.gen_abs(rnd)
+            doc, dirs = genv2.render2(a), [{}]
+            if rnd.random() < 0.7:
+                doc, dirs, st = genv2.Decorate2(rnd, doc, rnd.choice([1, 2])).run()
+                for k, v in st.items():
+                    agg['gen_' + k] += v
+            docs.append((hfront.dump_yaml(doc), dirs))
+        ostats, _ = self.effective_docs('H-effective2', 2, docs, oracle)
+        self._record('H-effective2', agg, 0)
+        return ostats
 
     def evidence(self):
         return {k: dict(v) for k, v in self.stats.items()}
@@ -227,6 +276,16 @@ def replay_case(c, case):
         d = w.to_json()
         d.update({'op': 'expand3', 'doc': hfront.yj(tree)})
         model = hfront.parse_model(common.drv_run([d])[0])
+    elif kind == 'H-effective2':
+        w = hfront.World(inp['dirs'], False, True, 2)
+        w.materialise(os.path.join(r.work, 'w'))
+        tree, _ = hfront.load_yaml(inp['doc_yaml'])
+        real = hfront.real_effective(inp['doc_yaml'], w)
+        if real[0] == 'ok':
+            real = ('ok', hfront.load_yaml(real[1])[0])
+        model = hfront.parse_model(common.drv_run([{'op': 'expand2', 'doc': hfront.yj(tree),
+                                                    'dirs2': w.loaded + [hfront.pkg_dir_files(2)],
+                                                    'dirs3': w.loaded + [hfront.pkg_dir_files(3)]}])[0])
     else:
         raise SystemExit('unknown replay kind ' + kind)
     return real, model, agree(real, model)
